@@ -56,7 +56,7 @@ def is_hist(s):
 
 FAULTS = ['dup_name', 'unknown_target', 'trans_on_pseudo', 'hist_in_orth', 'hist_root', 'initial_unknown',
           'initial_not_child', 'memory_unknown', 'memory_self', 'memory_not_sibling', 'unknown_key',
-          'unknown_type', 'bad_priority', 'both_kinds', 'missing', 'wrong_container']
+          'unknown_type', 'bad_priority', 'both_kinds', 'missing', 'wrong_container', 'empty_target']
 
 
 def inject(data, fault, rnd):
@@ -82,6 +82,19 @@ def inject(data, fault, rnd):
         t = rnd.choice(rnd.choice(cand)['transitions'])
         t['target'] = 'no-such-state'
         return 'transition retargeted to unknown state'
+    if fault == 'empty_target':
+        if '' in names:
+            return None
+        cand = [s for s, _ in sts if s.get('transitions')]
+        if not cand:
+            s = rnd.choice([s for s, _ in sts if not s.get('type')] or [None])
+            if s is None:
+                return None
+            s['transitions'] = [{'event': 'e', 'target': ''}]
+            return 'added transition to the state named by the empty string (there is none)'
+        t = rnd.choice(rnd.choice(cand)['transitions'])
+        t['target'] = ''
+        return 'transition retargeted to the empty string (no such state)'
     if fault == 'trans_on_pseudo':
         cand = [s for s, _ in sts if s.get('type')]
         if not cand:
@@ -337,6 +350,9 @@ class C12(Prop):
                 faults.append([f, what])
         text = dump(data)
         payload = {'kind': 'io_import', 'text': text, 'faults': faults, 'origin': origin}
+        if rnd.random() < 0.3:
+            # the same text was loaded leniently before (a tool that inspects documents it does not trust)
+            payload['preload'] = True
         c = Case(payload, None)
         self._finish(c)
         return c
@@ -360,6 +376,11 @@ class C12(Prop):
         return None
 
     def run_impl(self, case):
+        if case.payload.get('preload'):
+            try:
+                import_from_yaml(case.payload['text'], ignore_schema=True, ignore_validation=True)
+            except Exception:       # noqa
+                pass
         try:
             sc = import_from_yaml(case.payload['text'])
         except StatechartError:
